@@ -247,6 +247,156 @@ def gen_C16(tier, seed):
     return {"reqs": reqs, "certs": certs, "first": False, "gen": g, "contract": True}
 
 
+STREAM_CFGS = ["nc.d.1.0.b", "c.d.1.0.b", "c.0.0.0.b", "dfa.d.1.0.u", "dfa.d.0.0.b", "tnc.d.1.0.u", "tdfa.d.1.0.u",
+               "auto.d.1.0.u", "auto.d.1.1.b"]
+STREAM_PATS = [[b"ab"], [b"a"], [b"aa"], [b"ab", b"b"], [b"abc", b"bc", b"c"], [b"aab", b"ab", b"b"], [b"ba", b"ab"],
+               [b"abab", b"ba"], [b"a", b"b"], [b"abcab"], [b"bb", b"abb", b"b"], [b"aaa", b"aa"]]
+
+
+def compositions(n):
+    """all ways to split n bytes into positive read sizes"""
+    if n == 0:
+        return [[]]
+    out = []
+    for mask in range(1 << (n - 1)):
+        parts, cur = [], 1
+        for i in range(n - 1):
+            if mask >> i & 1:
+                parts.append(cur); cur = 1
+            else:
+                cur += 1
+        parts.append(cur)
+        out.append(parts)
+    return out
+
+
+def _stream_reqs(g, tier, op, faults=False):
+    q = tier == "quick"
+    reqs = []
+
+    def mk(pats, data, sched, spare, extra=None, mkind="std", cf=None):
+        kv = {"mk": mkind, "pats": hxlist(pats), "hay": hx(data),
+              "sched": ",".join(map(str, sched)) if sched else "."}
+        if spare is not None:
+            kv["spare"] = spare
+        if op != "stream":
+            r = [bytes([65 + i]) * g.rng.choice([0, 1, 3]) for i in range(len(pats))]
+            kv["repl"] = hxlist(r)
+        if extra:
+            kv.update(extra)
+        kv["cfgs"] = cfgs(cf or STREAM_CFGS)
+        return fmt_req(op, kv)
+
+    # complete enumeration of read schedules on short streams
+    maxlen = 5 if q else 8
+    streams = enum_words(b"ab", maxlen, empty=True)
+    for pats in STREAM_PATS[: 6 if q else len(STREAM_PATS)]:
+        for data in streams:
+            comps = compositions(len(data))
+            if q and len(comps) > 4:
+                comps = g.rng.sample(comps, 4)
+            elif len(comps) > 24:
+                comps = g.rng.sample(comps, 24)
+            for sched in comps:
+                spare = g.rng.choice([1, 1, 2, 3, max(len(p) for p in pats), 8 * max(len(p) for p in pats)])
+                extra = None
+                if faults:
+                    if op == "stream" or g.rng.random() < 0.5:
+                        extra = {"rfail": g.rng.randint(0, len(sched) + 1)}
+                    else:
+                        extra = {"wlimit": g.rng.randint(0, len(data) + 2)}
+                reqs.append(mk(pats, data, sched, spare, extra,
+                               cf=["nc.d.1.0.b", "c.0.0.0.b", "dfa.d.1.0.u", "auto.d.1.0.u"]))
+    # random schedules on longer streams
+    for _ in range(150 if q else 2000):
+        pats = g.pats(empty=False, kinds=["tiny", "tiny3", "nest", "akb", "suffix_chain"])
+        pats = [p for p in pats if p] or [b"ab"]
+        data = g.hay(pats, g.rng.choice([10, 30, 80, 200]))
+        sched, left = [], len(data)
+        while left > 0:
+            n = g.rng.choice([1, 1, 2, 3, 5, 8, 64, 1000])
+            sched.append(n); left -= n
+        mx = max(len(p) for p in pats)
+        spare = g.rng.choice([1, 1, 2, 3, mx, 7 * mx])
+        extra = None
+        if faults:
+            if op == "stream" or g.rng.random() < 0.5:
+                extra = {"rfail": g.rng.randint(0, len(sched) + 2)}
+            else:
+                extra = {"wlimit": g.rng.randint(0, len(data) + 3)}
+        reqs.append(mk(pats, data, sched, spare, extra))
+    # production buffer size: match straddling the 64 KiB boundary at every alignment
+    for k in range(0, 4 if q else 12):
+        pats = [b"abc", b"bcd"]
+        data = bytearray(b"x" * (65536 + 20))
+        pos = 65536 - 3 + k % 6
+        data[pos:pos + 3] = b"abc"
+        data[10:13] = b"bcd"
+        sched = [65536] if k % 2 == 0 else [40000, 25536, 7, 1000]
+        extra = ({"rfail": g.rng.randint(0, 3)} if faults else None)
+        reqs.append(mk(pats, bytes(data), sched, None, extra, cf=["nc.d.1.0.b", "dfa.d.1.0.u", "auto.d.1.0.u"]))
+    # rejected configurations
+    reqs.append(mk([b"ab", b""], b"xabx", [2, 2], 1))
+    reqs.append(mk([b"ab"], b"xabx", [2, 2], 1, mkind="lf"))
+    return reqs
+
+
+def gen_C07(tier, seed):
+    g = Gen(seed)
+    return {"reqs": _stream_reqs(g, tier, "stream"), "certs": [], "gen": g}
+
+
+def gen_C08(tier, seed):
+    g = Gen(seed)
+    return {"reqs": _stream_reqs(g, tier, "streamrep") + _stream_reqs(g, tier, "streamrepwith"), "certs": [], "gen": g}
+
+
+def gen_C18(tier, seed):
+    g = Gen(seed)
+    reqs = _stream_reqs(g, tier, "stream", faults=True) + _stream_reqs(g, tier, "streamrep", faults=True) + \
+        _stream_reqs(g, tier, "streamrepwith", faults=True)
+    return {"reqs": reqs, "certs": [], "gen": g}
+
+
+UTF8_CHARS = ["a", "b", "é", "ß", "€", "中", "😀", "x"]
+
+
+def gen_C12(tier, seed):
+    g = Gen(seed)
+    q = tier == "quick"
+    cf = ["nc.d.1.0.b", "c.d.1.0.b", "dfa.d.1.0.u", "tnc.d.1.0.u", "tdfa.d.1.0.u", "auto.d.1.1.u", "auto.d.1.0.b"]
+    reqs = []
+    for _ in range(300 if q else 3000):
+        mk = g.rng.choice(["std", "lf", "ll"])
+        variant = g.rng.choice(["bytes", "withbytes", "str", "withstr"])
+        if variant in ("str", "withstr"):
+            chars = [g.rng.choice(UTF8_CHARS) for _ in range(g.rng.randint(0, 8))]
+            hay = "".join(chars).encode()
+            # byte patterns that may split characters
+            pats = []
+            for _ in range(g.rng.randint(1, 4)):
+                if hay and g.rng.random() < 0.8:
+                    i = g.rng.randrange(len(hay)); j = g.rng.randint(i, min(len(hay), i + 4))
+                    pats.append(hay[i:j])
+                else:
+                    pats.append(g.rng.choice(UTF8_CHARS).encode())
+            if g.rng.random() < 0.15:
+                pats.append(b"")
+        else:
+            pats = g.pats()
+            hay = g.hay(pats, 14)
+        repl = [g.rng.choice(["", "Z", "é€", "longer-replacement"]).encode() for _ in pats]
+        kv = {"mk": mk, "pats": hxlist(pats), "hay": hx(hay), "variant": variant, "repl": hxlist(repl)}
+        if variant.startswith("with") and g.rng.random() < 0.4:
+            kv["stop"] = g.rng.randint(0, 3)
+        kv["cfgs"] = cfgs(cf)
+        reqs.append(fmt_req("replace", kv))
+    # wrong replacement table length: documented panic
+    reqs.append(fmt_req("replace", {"mk": "std", "pats": hxlist([b"a", b"b"]), "hay": hx(b"ab"), "variant": "bytes",
+                                    "repl": hxlist([b"x"]), "cfgs": cfgs(cf)}))
+    return {"reqs": reqs, "certs": [], "gen": g}
+
+
 TOP_APIS = ["is_match", "find", "find_overlapping", "find_iter", "find_overlapping_iter", "replace_all",
             "replace_all_bytes", "replace_all_with", "replace_all_with_bytes", "stream_find_iter",
             "try_find", "try_find_overlapping", "try_find_iter", "try_find_overlapping_iter", "try_replace_all",
@@ -288,5 +438,5 @@ def gen_C13(tier, seed):
     return {"reqs": reqs, "certs": [], "gen": g, "exhaustive": True}
 
 
-GENS = {"C13": gen_C13, "C01": gen_C01, "C02": gen_C02, "C03": gen_C03, "C04": gen_C04, "C09": gen_C09,
+GENS = {"C13": gen_C13, "C07": gen_C07, "C08": gen_C08, "C18": gen_C18, "C12": gen_C12, "C01": gen_C01, "C02": gen_C02, "C03": gen_C03, "C04": gen_C04, "C09": gen_C09,
         "C11": gen_C11, "C14": gen_C14, "C16": gen_C16}
